@@ -26,27 +26,6 @@ RULES = [  # (regex, replacements)  applied to code with comments stripped posit
     (r'\.x\b', ['.y']), (r'\.y\b', ['.x']), (r'\bwidth\b', ['height']), (r'\bheight\b', ['width']),
     (r'\?;', [';']), (r'\.rev\(\)', ['']), (r'\.abs\(\)', ['']),
 ]
-if os.environ.get('MUT_EXTRA') == '1':
-    # semantic mutants for plumbing code (adapters, images) that the token rules above do not reach
-    RULES += [
-        (r'(?<=[(=,] )-(?=[a-z])|(?<=\()-(?=[a-z])', ['']),            # drop a unary minus
-        (r'\+=', ['-=']), (r'(?<![<>=!\-+*/&|])-=', ['+=']),
-        (r'\.intersection\(', ['.envelope(']),
-        (r'\.translate\(', ['.translate(Point::new(1, 0) + ', '.translate(Point::zero() - ']),
-        (r'\.is_zero_sized\(\)', ['.is_zero_sized() ^ true']),
-        (r'\.nth\(', ['.nth(1 + ']),
-        (r'\.top_left\b(?!\.)', ['.top_left.swap_xy()']), (r'\.size\b(?![.(])', ['.size.swap_xy()']),
-        (r'\.is_some\(\)', ['.is_none()']), (r'\.is_none\(\)', ['.is_some()']),
-        (r'\.saturating_as\(\)', ['.saturating_as::<i32>().saturating_add(1)']),
-        (r'\bSome\(color\)', ['None']),
-        (r'\.into\(\)', ['.into().into()']) if False else (r'\bu32::MAX\b', ['0']),
-        (r'\.zip\(', ['.skip(1).zip(']), (r'\.filter\(', ['.skip(1).filter(']),
-        (r'\.take\(', ['.take(1 + ']),
-        (r'&self\.bounding_box\(\)', ['&self.bounding_box().offset(1)']),
-    ]
-
-
-SKIP_GENERICS = os.environ.get('MUT_SKIP_GENERICS') == '1'
 
 
 def code_spans(src):
@@ -94,8 +73,6 @@ def mutants(path):
                 line = src[line_start:src.find('\n', a + m.start())]
                 if re.match(r'\s*(#\[|use |pub use |mod |//|///|assert|debug_assert)', line):
                     continue
-                if SKIP_GENERICS and m.group(0) in '<>' and not (seg[m.start() - 1:m.start()] == ' ' and seg[m.end():m.end() + 1] == ' '):
-                    continue   # rustfmt puts spaces around comparisons; `<`/`>` without them are generic brackets (never compile)
                 for r in reps:
                     res.append((a + m.start(), a + m.end(), m.group(0), r))
     res.sort()
@@ -114,9 +91,6 @@ done = set()
 if os.path.exists(OUT):
     for l in open(OUT):
         done.add(l.split('\t')[0])
-TEST_TIMEOUT = int(os.environ.get('MUT_TEST_TIMEOUT', '400'))   # the unchanged suite takes 20-40 s
-N_RESULT_LINES = int(os.environ.get('MUT_RESULT_LINES', '9'))   # test binaries + doc-test runs of the unchanged workspace
-ONLY = os.environ.get('MUT_ONLY')   # regex on the mutant id: run only matching mutants
 STRIDE = int(os.environ.get('MUT_STRIDE', '1'))
 OFFSET = int(os.environ.get('MUT_OFFSET', '0'))
 for rel in FILES:
@@ -130,29 +104,18 @@ for rel in FILES:
             continue
         line_no = src.count('\n', 0, a) + 1
         mid = '%s:%d:%d:%s->%s' % (rel, line_no, a, old.strip() or '_', new.strip() or '_')
-        if mid in done or (ONLY and not re.search(ONLY, mid)):
+        if mid in done:
             continue
         open(path, 'w').write(src[:a] + new + src[b:])
-        detail = ''
         try:
             rc, out = sh('cargo build --offline -j6 2>&1 | tail -5', cwd=W, timeout=600)
             if 'error' in out:
                 verdict = 'NOCOMPILE'
             else:
-<<<<<<< HEAD
-                # `timeout` signals the whole process group, so a test binary that no longer terminates is killed as well
-                rc, out = sh('timeout -k 10 %d cargo test --workspace --offline -j6 2>&1 | grep -E "^test result|error(\\[|:)|FAILED|panicked|Terminated" | head -20' % TEST_TIMEOUT, cwd=W, timeout=TEST_TIMEOUT + 60)
-                # note: every passing summary line reads "... 0 failed; ...", so only a non-zero count means failure
-                if rc == 124 or 'FAILED' in out or 'error' in out or 'panicked' in out or re.search(r'\b[1-9]\d* failed', out) \
-                        or 'test result' not in out or out.count('test result') < N_RESULT_LINES:
-                    # const-evaluation / type errors that only the test build instantiates are compile failures too
-                    verdict = 'NOCOMPILE (test build)' if 'error[E' in out else 'KILLED-BY-TESTS'
-=======
                 rc, out = sh('timeout -k 10 400 cargo test --workspace --offline -j6 2>&1 | grep -E "^test result|error(\\[|:)|FAILED|panicked" | head -20', cwd=W, timeout=1500)
                 # NB "test result: ok. 421 passed; 0 failed; ..." contains the word `failed`: only a non-zero count is a failure
                 if rc == 124 or 'FAILED' in out or 'error' in out or 'panicked' in out or re.search(r'\b[1-9]\d* failed', out) or out.count('test result') < 9:   # 9 = number of test binaries + doc-test runs on the unchanged tree
                     verdict = 'KILLED-BY-TESTS'
->>>>>>> wip-mut2
                 else:
                     verdict = ''
                     for p in props:
@@ -160,25 +123,17 @@ for rel in FILES:
                         v = [l for l in o.splitlines() if l.startswith('VIOLATION')]
                         if v:
                             verdict = 'CAUGHT %s %s' % (p, 'no-input' if 'no-failing-input-found' in v[0] else 'input')
-<<<<<<< HEAD
-                            try:
-                                d = json.load(open(os.path.join(V, re.search(r'replay=(\S+)', v[0]).group(1))))
-                                detail = '%s | %s' % (d.get('kind'), str(d.get('input') or d.get('first_disagreeing_case') or d.get('theorem_or_suite') or d.get('log'))[:300].replace('\n', ' ').replace('\t', ' '))
-                            except Exception as e:
-                                detail = 'replay unreadable: %r' % e
-=======
                             try:  # remember which suite / theorem reported it (first replay)
                                 d = json.load(open(os.path.join(V, re.search(r'replay=(\S+)', v[0]).group(1))))
                                 what = d.get('input') or d.get('first_disagreeing_case') or d.get('theorem_or_suite') or ''
                                 verdict += ' [' + str(what).replace('\t', ' ').replace('\n', ' ')[:60] + ']'
                             except Exception:
                                 pass
->>>>>>> wip-mut2
                             break
                     if not verdict:
                         verdict = 'SURVIVED ' + ','.join(props)
         finally:
             open(path, 'w').write(src)
         with open(OUT, 'a') as f:
-            f.write('%s\t%s\t%s\t%s\n' % (mid, verdict, src[src.rfind(chr(10), 0, a) + 1:src.find(chr(10), a)].strip()[:120], detail))
+            f.write('%s\t%s\t%s\n' % (mid, verdict, src[src.rfind(chr(10), 0, a) + 1:src.find(chr(10), a)].strip()[:120]))
         print(mid, verdict, flush=True)
